@@ -51,10 +51,27 @@ func c04Play(h hash.Hash, ops []hashOp, ev *evw) {
 	for _, o := range ops {
 		switch o.Op {
 		case "write":
-			p := c04Msg(0, pos, o.N)
+			// the caller's buffer has canary-filled spare capacity and is scribbled over as soon as
+			// Write returns (io.Writer: Write must not retain or modify p): value semantics of the spec
+			msg := c04Msg(0, pos, o.N)
+			full := make([]byte, o.N+24)
+			copy(full, msg)
+			for i := o.N; i < len(full); i++ {
+				full[i] = 0xA5
+			}
+			p := full[:o.N]
 			n, err := h.Write(p)
+			intact := string(p) == string(msg)
+			for i := o.N; i < len(full); i++ {
+				if full[i] != 0xA5 {
+					intact = false
+				}
+			}
+			for i := range full {
+				full[i] = 0xEE
+			}
 			pos += o.N
-			ev.emit(map[string]interface{}{"ev": "write", "n": o.N, "ret": n, "err": err != nil})
+			ev.emit(map[string]interface{}{"ev": "write", "n": o.N, "ret": n, "err": err != nil, "caller_intact": intact})
 		case "sum":
 			cp := o.P
 			if o.C == 1 {
